@@ -26,9 +26,11 @@ type QVar struct {
 }
 
 type CType struct {
-	Kind string // int real bool float64 uint32 byte uint slice ptr named
-	Elem *CType
-	Name string
+	Kind   string // int real bool float64 uint32 byte uint slice ptr named func
+	Elem   *CType
+	Name   string
+	Params []*CType // func
+	Ret    *CType   // func
 }
 
 func (t *CType) String() string {
@@ -667,6 +669,18 @@ func (l *lexer) parseType() *CType {
 	switch n {
 	case "int", "real", "bool", "float64", "uint32", "byte", "uint", "int64":
 		return &CType{Kind: n}
+	case "func":
+		ft := &CType{Kind: "func"}
+		l.expectOp("(")
+		for !l.isOp(")") {
+			ft.Params = append(ft.Params, l.parseType())
+			if l.isOp(",") {
+				l.next()
+			}
+		}
+		l.expectOp(")")
+		ft.Ret = l.parseType()
+		return ft
 	}
 	if l.isOp(".") { // pkg.Name
 		l.next()
